@@ -555,6 +555,13 @@ class Canon:
         if k == "Let":
             return "let %s = %s" % (H.show_pat(n["pat"]), self.c(n["init"], d))
         if k == "Match":
+            # `match x { Some(v) => v, None => <leaves> }` is v (the unwrapping spelling of `?` / let-else)
+            stay = [a for a in n["arms"] if a["body"].get("ty") != "!"]
+            if len(stay) == 1 and len(n["arms"]) >= 2 and not stay[0].get("guard"):
+                bexp = peel(stay[0]["body"])
+                if bexp.get("k") == "Local" and bexp["lid"] in self.defs and self.defs[bexp["lid"]][0] == "let" and \
+                        self.defs[bexp["lid"]][1] is n["scrut"]:
+                    return self.c(bexp, d)
             return "match %s {%s}" % (self.c(n["scrut"], d), ", ".join(
                 H.show_pat(a["pat"]) + " => " + self.c(a["body"], d) for a in n["arms"]))
         return H.show(n)
@@ -731,6 +738,8 @@ class Index:
             return out
         for a in exits:
             raw = self.arm_cond(m, a)
+            if raw == "true":
+                raw = "match %s => _" % self.canon(m["scrut"])        # the catch-all arm
             if a.get("guard"):
                 raw += " && " + self.cond(a["guard"])
             after = "!(%s)" % raw
@@ -828,6 +837,8 @@ class Index:
             def plain(x):
                 while x.get("k") in ("RefPat", "DerefPat"):
                     x = x["sub"]
+                if x.get("k") == "Tuple":
+                    return all(plain(y) for y in x["pats"])
                 return x.get("k") in ("Wild",) or (x.get("k") == "Bind" and not x.get("sub"))
             if not all(plain(x) for x in subs):
                 return None
@@ -847,6 +858,11 @@ class Index:
         return "%slet %s = %s" % ("" if positive else "!", H.show_pat(pat), x)
 
     def arm_cond(self, m, a):
+        pk = a["pat"]
+        while pk.get("k") in ("RefPat", "DerefPat"):
+            pk = pk["sub"]
+        if pk.get("k") == "Wild" or (pk.get("k") == "Bind" and not pk.get("sub")):
+            return "true"                   # irrefutable: reached whenever no earlier arm was taken
         cls = self.pat_class(a["pat"])
         if cls is not None:
             return "%s(%s)" % (cls, self.canon(m["scrut"]))
@@ -893,11 +909,21 @@ class Index:
                     for cc in self.split_or(anc["cond"]):
                         out.append({"cond": self.neg(cc), "kind": "else", "node": anc, "errs": [], "expr": cc, "pos": False})
             elif k == "Match":
-                for a in anc["arms"]:
+                for i_, a in enumerate(anc["arms"]):
                     if a["body"] is child or self.contains(a["body"], child):
-                        out.append({"cond": self.arm_cond(anc, a), "kind": "arm", "node": anc, "errs": []})
+                        ac = self.arm_cond(anc, a)
+                        if ac != "true":
+                            out.append({"cond": ac, "kind": "arm", "node": anc, "errs": []})
                         if a.get("guard"):
-                            out.append({"cond": self.cond(a["guard"]), "kind": "arm-guard", "node": anc, "errs": []})
+                            out.append({"cond": self.cond(a["guard"]), "kind": "arm-guard", "node": anc, "errs": [], "expr": a["guard"], "pos": True})
+                        # arms are tried in order: no earlier (pattern, guard) applied.  Recorded only where it says
+                        # something the arm's own pattern does not (an earlier guarded arm, or this arm irrefutable)
+                        for prev in anc["arms"][:i_]:
+                            pc_ = self.arm_cond(anc, prev)
+                            if prev.get("guard") or ac == "true":
+                                txt = pc_ + (" && " + self.cond(prev["guard"]) if prev.get("guard") else "")
+                                out.append({"cond": "!(%s)" % txt, "kind": "arm-prev", "node": anc, "errs": [], "prev_pat": pc_,
+                                            "prev_guard": prev.get("guard")})
             elif k == "While":
                 if child is anc["body"] or self.contains(anc["body"], child):
                     for cc in self.split_and(anc["cond"]):
@@ -920,7 +946,7 @@ class Index:
                 return True
         return False
 
-    CASE_KINDS = ("if", "else", "arm", "arm-guard", "guard", "guard-else", "let-else", "arm-exit", "ok_or")
+    CASE_KINDS = ("if", "else", "arm", "arm-guard", "arm-prev", "guard", "guard-else", "let-else", "arm-exit", "ok_or")
 
     def result_cases(self, canon=None):
         """The function's result as a case table, independent of how the cases are spelled:
